@@ -32,6 +32,11 @@ std::vector<PacketPtr> TECMP::Decoder::Decode(const void* data, const std::size_
 
 TecmpPayloadPtr TECMP::Decoder::GetCaptureModulePayload(const uint8_t* payloadData, const std::size_t size)
 {
+    // generic data (12) and the vendor data the converter reads (24)
+    constexpr std::size_t statusSize = 36;
+    if (size < statusSize)
+        return {};
+
     CaptureModulePayload payload(payloadData, size);
     if (payload.isValid())
         return std::make_shared<Payload>(payload);
